@@ -1,4 +1,5 @@
 INIT Init
 NEXT Next
 INVARIANT Inv
+INVARIANT PkgInv
 CHECK_DEADLOCK FALSE
